@@ -64,6 +64,17 @@ func DelMany(prefix []byte, n int) {
 		storage.Delete(ctx, append(prefix, byte(i)))
 	}
 }
+func PutSpine(spine []byte, v []byte) {
+	ctx := storage.GetContext()
+	for i := 0; i < len(spine); i++ {
+		k := append([]byte{}, spine[:i+1]...)
+		k[i] = k[i] ^ 0x10
+		storage.Put(ctx, k, v)
+		k[i] = k[i] ^ 0x11
+		storage.Put(ctx, k, v)
+	}
+	storage.Put(ctx, spine, v)
+}
 func Fail(k, v []byte) {
 	storage.Put(storage.GetContext(), k, v)
 	runtime.Notify("E1", 7)
@@ -164,6 +175,7 @@ type Gen struct {
 	// vote-affecting transaction between the re-registration and the committee refresh).
 	Churn2 neotest.SingleSigner
 	nvar   int
+	spines int
 	// PendingOracle are the ids of oracle requests seen in accepted blocks and not answered yet (as far as the
 	// generator knows); Answered keeps some answered ids (a second response must be refused).
 	PendingOracle []uint64
@@ -194,7 +206,7 @@ func DefaultWeights() map[string]int {
 	return map[string]int{"gas": 10, "neo": 8, "reg": 3, "unreg": 2, "vote": 8, "policy": 4, "wlfee": 4, "role": 2,
 		"deploy": 2, "update": 2, "destroy": 1, "kvput": 8, "kvdel": 4, "kvmany": 4, "kvfail": 4, "kvtry": 3,
 		"notary": 3, "notarylock": 1, "notarywd": 1, "notify": 2,
-		"oraclereq": 3, "oracleresp": 4, "ledger": 3, "natcfg": 2}
+		"oraclereq": 3, "oracleresp": 4, "ledger": 3, "natcfg": 2, "kvspine": 1}
 }
 
 // New funds nacc accounts on a fresh reference chain (consumes the first block).
@@ -321,7 +333,7 @@ func (g *Gen) pick() string {
 	x := g.R.Intn(tot)
 	// deterministic order
 	keys := []string{"gas", "neo", "reg", "unreg", "vote", "policy", "wlfee", "role", "deploy", "update", "destroy", "kvput", "kvdel", "kvmany", "kvfail", "kvtry", "notary", "notarylock", "notarywd", "notify",
-		"oraclereq", "oracleresp", "ledger", "natcfg"}
+		"oraclereq", "oracleresp", "ledger", "natcfg", "kvspine"}
 	for _, k := range keys {
 		if x < g.Weights[k] {
 			return k
@@ -537,6 +549,17 @@ func (g *Gen) one() *transaction.Transaction {
 	case "notarywd":
 		_, b := g.acct()
 		tx = g.tx(sa, g.hash(nativenames.Notary), "withdraw", a.ScriptHash(), b.ScriptHash())
+	case "kvspine":
+		// a deep corner of the state trie: one long key with a key leaving it at every half-byte
+		if len(g.KVs) == 0 || g.spines >= 3 {
+			return nil
+		}
+		sp := make([]byte, 40+g.R.Intn(21))
+		g.R.Read(sp)
+		tx = g.tx(sa, g.KVs[g.R.Intn(len(g.KVs))], "putSpine", sp, g.val())
+		if tx != nil {
+			g.spines++
+		}
 	case "oraclereq":
 		// a scenario contract asks the native Oracle for data; the request stays pending until an "oracleresp"
 		// transaction (possibly much later: beyond MaxTraceableBlocks in the worlds where that is small) answers it
@@ -667,6 +690,16 @@ func (g *Gen) NextTxs(max int) []*transaction.Transaction {
 	}
 	if tx := g.churnTx(); tx != nil {
 		cand = append(cand, tx)
+	}
+	if (g.BC.BlockHeight()+1)%8 == 1 && g.BC.BlockHeight() > 4 && g.spines < 3 && len(g.KVs) > 0 {
+		_, a := g.acct()
+		sp := make([]byte, 40+g.R.Intn(21))
+		g.R.Read(sp)
+		if tx := g.tx([]neotest.Signer{a}, g.KVs[g.R.Intn(len(g.KVs))], "putSpine", sp, g.val()); tx != nil {
+			cand = append(cand, tx)
+			g.spines++
+			g.Stats["kvspine"]++
+		}
 	}
 	if f := g.Script[g.BC.BlockHeight()+1]; f != nil {
 		if tx := f(); tx != nil {
